@@ -97,6 +97,16 @@ def argMinMaxColWith (prune : Bool) (maxMode : Bool) (n : Nat) (fill : Int) (es 
 
 /-! ### `unique_counts`, `unique_values` -/
 
+/-- Region of finding F-stored-fill for `unique_values` / `unique_counts`: some cell is unstored and
+a stored element equals the fill value (the fill value is then listed twice). -/
+def ExcludedStoredFill (n : Nat) (fill : Int) (es : Row) : Bool :=
+  decide (es.length < n) && es.any fun e => e.2 == fill
+
+/-- Region of finding F-unique-counts-perm: some cell is unstored and at least two distinct stored
+values lie below the fill value (the inverse permutation then differs from the permutation). -/
+def ExcludedTwoBelow (n : Nat) (fill : Int) (es : Row) : Bool :=
+  decide (es.length < n) && decide (2 ≤ (uniqueValuesD (es.map (·.2))).countP fun v => decide (v < fill))
+
 /-- `np.argsort(values)` (stable) -/
 def argsort (l : List Int) : List Nat :=
   (List.range l.length).mergeSort fun i j => decide (l.getD i 0 ≤ l.getD j 0)
